@@ -179,14 +179,16 @@ let handle (line:string) : string =
       let s = static_okb c in
       let si = static_ib c in   (* run_conforms_initial: documents with <initial> elements, deep/multiple initial attributes *)
       b2s s ^ b2s (s && run_guardb c es f) ^ b2s (s && run_completeb c es f) ^
-      b2s si ^ b2s (si && run_guardb c es f && run_completeb c es f)
+      let sh = static_hb c in   (* run_conforms_history_partial: documents with <history> (wf_histb + side conditions) *)
+      b2s si ^ b2s (si && run_guardb c es f && run_completeb c es f) ^
+      b2s sh ^ b2s (sh && run_guardb c es f && run_completeb c es f)
   | Atom "reach" :: Atom late :: tree :: _ ->
       (* which theorems' hypotheses the document / its flat tables satisfy *)
       let t = tree_of tree in
       let c = flatten (late = "1") t in
       let root = (match (st c O).fs_type with FCompound -> true | _ -> false) in
       String.concat "" (List.map b2s [wf_coreb c && root; wf_initb c && root; wf_histb c && root; wf_fastb c && root;
-                                      core_treeb t; c01_treeb t; eq_chartb c])
+                                      core_treeb t; c01_treeb t; eq_chartb c; hist_treeb t; eq_tree_histb t; c01i_treeb t])
   | Atom "tc" :: Atom late :: tree :: toks ->
       (* the completeness checker of TraceComplete.v on a trace with RET/CFG tokens; CFG carries the sids *)
       let c = flatten (late = "1") (tree_of tree) in
